@@ -186,7 +186,7 @@ def run_config(cfg, rec):
                 if var in r:
                     expected[f"{ds['label']}:{var}"] = [core.evalf(zreal(x), env) for x in np.asarray(r[var].data, dtype=object).flat]
         rec.validate("random-point", dict(env), expected)
-        rec.sample({"datasets": list(results), "variables": sorted(map(str, results[cfg["datasets"][0]["label"]].data_vars))})
+        rec.want_sample() and rec.sample({"datasets": list(results), "variables": sorted(map(str, results[cfg["datasets"][0]["label"]].data_vars))})
 
 
 # ------------------------------------------------------------------------------------------------ float side
